@@ -42,9 +42,12 @@ struct EpMon {
     acked_parts: HashSet<Part>,
     sent_parts: HashMap<u64, (u64, Vec<Part>)>,
     first_reason: Option<Tree>,
+    updated_at: Option<u64>, // clock value right after the last update() call
     // unreliable: payload -> indices of the packets of outs carrying (a piece of) it
     unrel_carriers: HashMap<(u8, Vec<u8>), Vec<Vec<usize>>>,
     unrel_slices: HashMap<(u8, u64), Vec<Option<(usize, Vec<u8>)>>>,
+    // unreliable reassemblies at this endpoint: (channel, message id) -> clock of the last slice that arrived
+    unrel_last_slice: HashMap<(u8, u64), u64>,
 }
 
 pub struct RHistory {
@@ -52,6 +55,7 @@ pub struct RHistory {
     mons: HashMap<Ep, EpMon>,
     pairs: HashMap<Ep, Ep>,
     ev_state: HashMap<u64, bool>, // server events: id -> currently connected according to events
+    removed_reason: HashMap<u64, Option<Tree>>, // id -> first reason of the connection at the time it was removed
     pub res: RunResult,
     step: usize,
 }
@@ -83,7 +87,7 @@ fn packet_channel(p: &Packet) -> Option<(bool, u8)> {
 
 impl RHistory {
     pub fn new() -> Self {
-        RHistory { world: RWorld::new(), mons: HashMap::new(), pairs: HashMap::new(), ev_state: HashMap::new(), res: RunResult::default(), step: 0 }
+        RHistory { world: RWorld::new(), mons: HashMap::new(), pairs: HashMap::new(), ev_state: HashMap::new(), removed_reason: HashMap::new(), res: RunResult::default(), step: 0 }
     }
 
     fn feat(&mut self, name: &'static str) {
@@ -275,6 +279,8 @@ impl RHistory {
                 self.emit(op);
                 if let Some(e) = e {
                     self.mon(e).clock += dt;
+                    let c = self.mon(e).clock;
+                    self.mon(e).updated_at = Some(c);
                 }
             }
             6 => {
@@ -283,6 +289,8 @@ impl RHistory {
                 let ids: Vec<u64> = self.world.server.as_ref().map(|s| s.verif_connection_ids()).unwrap_or_default();
                 for id in ids {
                     self.mon(Ep::Srv(id)).clock += dt;
+                    let c = self.mon(Ep::Srv(id)).clock;
+                    self.mon(Ep::Srv(id)).updated_at = Some(c);
                 }
             }
             7 => {
@@ -302,6 +310,17 @@ impl RHistory {
                         self.pairs.remove(&p);
                     }
                 }
+            }
+            21 | 29 => {
+                // removal: remember the first disconnect reason the connection had at that moment
+                let id = v.get(1).and_then(|t| t.as_u64()).unwrap_or(0);
+                let exists = self.world.server.as_ref().map(|s| s.verif_connection(id).is_some()).unwrap_or(false);
+                let local_alive = if code == 29 { v.get(2).and_then(|t| t.as_u64()).and_then(|k| self.world.conns.get(&k)).map(|c| !c.is_disconnected()).unwrap_or(false) } else { true };
+                let reason = self.world.server.as_ref().and_then(|s| s.verif_connection(id)).and_then(|c| c.disconnect_reason()).map(reason_tree);
+                if exists && local_alive && !self.removed_reason.contains_key(&id) {
+                    self.removed_reason.insert(id, reason);
+                }
+                self.emit(op);
             }
             24 | 25 => {
                 // broadcast: record one accepted send per live connection (minus the excluded one)
@@ -604,6 +623,12 @@ impl RHistory {
                 }
             }
         }
+        if !was_disc {
+            if let Ok(Packet::UnreliableSlice { channel_id, slice, .. }) = decode_packet(&data) {
+                let clock = self.mon(dst).clock;
+                self.mon(dst).unrel_last_slice.insert((channel_id, slice.message_id), clock);
+            }
+        }
         self.emit(&op);
         if self.res.panicked {
             return;
@@ -620,6 +645,38 @@ impl RHistory {
         }
         if !was_disc && self.is_disc(dst) {
             self.feat("disconnected_by_packet");
+            if genuine {
+                self.check_memory_disconnect(src, dst);
+            }
+        }
+    }
+
+    /// C09: traffic within the budget, drained promptly, must not end in ReliableChannelMaxMemoryReached
+    fn check_memory_disconnect(&mut self, src: Ep, dst: Ep) {
+        let clean = !self.mons.get(&src).map(|m| m.hostile_in).unwrap_or(false) && !self.mons.get(&dst).map(|m| m.hostile_in).unwrap_or(false);
+        if !clean || self.pairs.get(&src) != Some(&dst) {
+            return;
+        }
+        let reason = match self.world.conn_ref(dst).and_then(|c| c.disconnect_reason()) {
+            Some(r) => r,
+            None => return,
+        };
+        let ch = match reason {
+            renet::DisconnectReason::ReceiveChannelError { channel_id, error: renet::ChannelError::ReliableChannelMaxMemoryReached } => channel_id,
+            _ => return,
+        };
+        let max = match self.world.recv_cfg(dst).and_then(|c| c.iter().find(|c| c.id == ch)).map(|c| c.max) {
+            Some(m) => m,
+            None => return,
+        };
+        let pending: Vec<u64> = self.world.conn_ref(src).map(|c| c.verif_unacked().into_iter().filter(|(c2, _)| *c2 == ch).flat_map(|(_, v)| v.into_iter().map(|(id, _)| id)).collect()).unwrap_or_default();
+        let sizes: Vec<usize> = self.mons.get(&src).and_then(|m| m.sent.get(&ch)).map(|v| v.iter().map(|m| m.len()).collect()).unwrap_or_default();
+        let exact: usize = pending.iter().map(|id| sizes.get(*id as usize).copied().unwrap_or(0)).sum();
+        let rounded: usize = pending.iter().map(|id| { let l = sizes.get(*id as usize).copied().unwrap_or(0); if l > 1200 { l.div_ceil(1200) * 1200 } else { l } }).sum();
+        let buffered = self.world.conn_ref(dst).map(|c| c.verif_receive_reliable_state().into_iter().filter(|(c2, ..)| *c2 == ch).map(|(_, _, msgs, _)| msgs.len()).sum::<usize>()).unwrap_or(0);
+        if exact <= max && buffered == 0 {
+            let class = if rounded > max { " [class:rounded-reservation]" } else { "" };
+            self.violate("C09", format!("{:?} was disconnected for exhausted channel memory on channel {} although the peer has only {} bytes in flight (budget {}) and nothing waits to be drained{}", dst, ch, exact, max, class));
         }
     }
 
@@ -638,6 +695,19 @@ impl RHistory {
                 } else {
                     if !cur {
                         self.violate("C12", format!("ClientDisconnected event for client {} without a preceding connect", id));
+                    }
+                    // the reported reason is the connection's first one; a healthy connection reports Transport or DisconnectedByClient
+                    let reported = ev.get(2).cloned();
+                    let first = self.removed_reason.remove(&id).flatten();
+                    match (first, reported) {
+                        (Some(f), Some(r)) if f != r => self.violate("C12", format!("client {} was first disconnected with {} but the event reports {}", id, f.to_text(), r.to_text())),
+                        (None, Some(r)) => {
+                            let code = r.as_l().and_then(|v| v.first()).and_then(|t| t.as_u64());
+                            if code != Some(0) && code != Some(1) {
+                                self.violate("C12", format!("a healthy connection of client {} was removed but the event reports {}", id, r.to_text()));
+                            }
+                        }
+                        _ => {}
                     }
                     self.ev_state.insert(id, false);
                     self.feat("event_disconnected");
@@ -718,6 +788,7 @@ impl RHistory {
             let rmem = c.verif_receive_memory();
             let unacked = c.verif_unacked();
             let rstate = c.verif_receive_reliable_state();
+            let ustate = c.verif_receive_unreliable_state();
             let send_cfg: HashMap<u8, usize> = self.world.send_cfg(e).map(|c| c.iter().map(|c| (c.id, c.max)).collect()).unwrap_or_default();
             let recv_cfg: HashMap<u8, usize> = self.world.recv_cfg(e).map(|c| c.iter().map(|c| (c.id, c.max)).collect()).unwrap_or_default();
             // C12: the first reason is kept
@@ -748,6 +819,22 @@ impl RHistory {
                         if mem > max {
                             let hostile = self.mons.get(&e).map(|m| m.hostile_in).unwrap_or(false);
                             self.violate(if hostile { "C06" } else { "C09" }, format!("{:?} receive channel {} accounts {} bytes, maximum is {}", e, ch, mem, max));
+                        }
+                    }
+                }
+            }
+            // C09: an incomplete unreliable reassembly without progress for 3 s no longer counts
+            if !disc {
+                let clock = self.mons.get(&e).map(|m| m.clock).unwrap_or(0);
+                let updated = self.mons.get(&e).map(|m| m.updated_at == Some(clock)).unwrap_or(false);
+                if updated {
+                    for (ch, ids) in ustate.clone() {
+                        for id in ids {
+                            if let Some(t) = self.mons.get(&e).and_then(|m| m.unrel_last_slice.get(&(ch, id)).copied()) {
+                                if clock - t >= 3_000_000_000 {
+                                    self.violate("C09", format!("{:?} still accounts the unreliable reassembly of message {} on channel {} after {} ns without progress", e, id, ch, clock - t));
+                                }
+                            }
                         }
                     }
                 }
